@@ -238,6 +238,7 @@ def c04(case, tr, res):
     q['cold_used'] = bs['cold_total'] - bs['cold_free']
     q['arrays'] = probe.telescope_use(sim.instrument)
     q['pending_ingest'] = probe.pending_ingest(sim.scheduler)
+    q['reservation_counter'] = getattr(sim.cluster, 'num_provisioned_obs', 0)
     try:
         q['running_list'] = [t.id for t in probe.running_tasks(sim.cluster)]
     except ProbeUnavailable:
